@@ -24,7 +24,7 @@ HL2PI = math.log(math.sqrt(2 * math.pi))
 OBJECTIVES = ["ELBO", "ELBO-entropy", "VR", "CUBO", "KLpq"]
 # pairs whose q can also be handed over as a bare Distribution (no JointDistributionModel)
 REGULAR = ["ge", "gp", "nn", "bb", "ge_exp", "bb_sig", "nn_aff", "lnn_exp", "two"]
-BARE_OK = {"ge", "gp", "nn", "bb", "nn_aff", "lnn_exp", "ge_vec", "mvn", "mvn_full"}
+BARE_OK = {"ge", "gp", "nn", "bb", "nn_aff", "lnn_exp", "ge_vec", "ge_list", "mvn", "mvn_full"}
 NO_ENTROPY = {"ge_exp", "bb_sig"}     # q = density(z(u)) + Jacobian: q.entropy() is not H(q_u)
 
 
@@ -115,9 +115,9 @@ def gen_hyper(rng, pair):
         return math.exp(rng.uniform(math.log(lo), math.log(hi)))
     n = rng.randint(1, 5)
     h = dict(pair=pair)
-    if pair in ("ge", "ge_exp", "ge_vec", "two"):
-        d = 2 if pair == "ge_vec" else 1
-        n = 1 if pair == "ge_vec" else n      # one observation per component (data shape [d])
+    if pair in ("ge", "ge_exp", "ge_vec", "ge_list", "two"):
+        d = 2 if pair in ("ge_vec", "ge_list") else 1
+        n = 1 if pair in ("ge_vec", "ge_list") else n      # one observation per component (data shape [d])
         h.update(a=[logu(0.6, 5) for _ in range(d)], b=[logu(0.3, 3) for _ in range(d)],
                  xs=[[round(logu(0.05, 3), 3) for _ in range(d)] for _ in range(n)])
     if pair == "gp":
@@ -185,7 +185,7 @@ def build_spec(h, qclass, perturb):
     def vec(l):
         return l if len(l) > 1 else [l[0]]
 
-    if pair in ("ge", "ge_exp", "ge_vec", "two"):
+    if pair in ("ge", "ge_exp", "ge_vec", "ge_list", "two"):
         a, b, xs = h["a"], h["b"], h["xs"]
         d, n = len(a), len(xs)
         sx = [math.fsum(r[j] for r in xs) for j in range(d)]
@@ -198,10 +198,23 @@ def build_spec(h, qclass, perturb):
             objs.append(P("z", [1.0] * d))
             s.latents.append("z")
         data = [r[0] for r in xs] if d == 1 else xs[0]
-        jd += [D("like", "torch.distributions.Exponential", P("data", data), {"rate": "z"}),
-               D("prior", "torch.distributions.Gamma", "z", {"concentration": vec(a), "rate": vec(b)})]
-        qd.append(D("q.z", "torch.distributions.Gamma", "z",
-                    {"concentration": P("q.a", vec(qa)), "rate": P("q.b", vec(qb))}))
+        if pair == "ge_list":
+            # the two rates are two separate parameters; ONE variational Distribution has the LIST
+            # [z1, z2] as its random variable (x: list of parameters)
+            objs.pop()
+            s.latents.pop()
+            objs += [P("z1", [1.0]), P("z2", [1.0])]
+            s.latents += ["z1", "z2"]
+            for j, zid in enumerate(("z1", "z2")):
+                jd += [D(f"like{j}", "torch.distributions.Exponential", P(f"data{j}", [xs[0][j]]), {"rate": zid}),
+                       D(f"prior{j}", "torch.distributions.Gamma", zid, {"concentration": [a[j]], "rate": [b[j]]})]
+            qd.append(D("q.z", "torch.distributions.Gamma", ["z1", "z2"],
+                        {"concentration": P("q.a", vec(qa)), "rate": P("q.b", vec(qb))}))
+        else:
+            jd += [D("like", "torch.distributions.Exponential", P("data", data), {"rate": "z"}),
+                   D("prior", "torch.distributions.Gamma", "z", {"concentration": vec(a), "rate": vec(b)})]
+            qd.append(D("q.z", "torch.distributions.Gamma", "z",
+                        {"concentration": P("q.a", vec(qa)), "rate": P("q.b", vec(qb))}))
         s.fire += ["q.a", "q.b"]
         via_exp = pair == "ge_exp"
 
@@ -427,9 +440,15 @@ def gen_cases(rng, tier):
     cases, i = [], 0
 
     def mk(obj, par, shape, qclass, tight, pair):
-        return dict(obj=obj, par=par, shape=shape, qclass=qclass, tight=tight, hyper=gen_hyper(rng, pair),
-                    perturb=None if tight else (round(rng.uniform(0.75, 1.35), 3), round(rng.uniform(0.75, 1.35), 3)),
-                    torch_seed=rng.randrange(2 ** 31))
+        c = dict(obj=obj, par=par, shape=shape, qclass=qclass, tight=tight, hyper=gen_hyper(rng, pair),
+                 perturb=None if tight else (round(rng.uniform(0.75, 1.35), 3), round(rng.uniform(0.75, 1.35), 3)),
+                 torch_seed=rng.randrange(2 ** 31))
+        # a third of the requests override the configured sample shape with the `samples=` keyword
+        # (as the convergence monitor does): `shape` is always the shape REQUESTED
+        if rng.random() < 0.34:
+            alt = [x for x in ([1], [3], [5], [1, 2], [2, 3], [3, 1], [4, 5]) if x != shape]
+            c["configured"] = rng.choice(alt)
+        return c
     for rep in range(reps):
         for obj, par in variants:
             for shape in shapes:
@@ -442,7 +461,7 @@ def gen_cases(rng, tier):
                         if qclass == "bare" and not tight and rng.random() < 0.5:
                             continue        # perturbed bare cases add little: thin them out
                         cases.append(mk(obj, par, shape, qclass, tight, pair))
-        for pair in ("ge_vec", "mvn"):
+        for pair in ("ge_vec", "ge_list", "mvn"):
             for obj, par in [("ELBO", None), ("ELBO-entropy", None), ("VR", 0.5), ("CUBO", 2.0), ("KLpq", None)]:
                 for shape in ([1], [2], [3], [1, 3], [3, 2]):
                     for qclass in ("joint", "bare"):
@@ -517,7 +536,8 @@ def run_impl(c):
     dic = {}
     for o in spec.objs:
         process_object(o, dic)
-    samples = c["shape"][0] if len(c["shape"]) == 1 else list(c["shape"])
+    conf = c.get("configured") or c["shape"]
+    samples = conf[0] if len(conf) == 1 else list(conf)
     od = {"id": "objective", "type": {"ELBO-entropy": "ELBO"}.get(c["obj"], c["obj"]), "samples": samples,
           "joint": spec.joint_id, "variational": spec.var_id}
     if c["obj"] == "ELBO-entropy":
@@ -540,7 +560,7 @@ def run_impl(c):
                 dic[pid].fire_parameter_changed()
         del log[:]
         try:
-            v = obj()
+            v = obj(samples=torch.Size(c["shape"])) if c.get("configured") else obj()
             err = None
         except Exception as e:                       # noqa: BLE001 - any failure is an outcome
             v, err = None, f"{type(e).__name__}: {str(e)[:160]}"
@@ -683,7 +703,10 @@ def within(x, iv, tol):
 # ----------------------------------------------------------------------------- run
 
 def public(c):
-    return {k: c[k] for k in ("obj", "par", "shape", "qclass", "tight", "hyper", "perturb", "torch_seed")}
+    d = {k: c[k] for k in ("obj", "par", "shape", "qclass", "tight", "hyper", "perturb", "torch_seed")}
+    if c.get("configured"):
+        d["configured"] = c["configured"]
+    return d
 
 
 def run(tier, seed, replay=None):
